@@ -34,8 +34,40 @@ def determinism(n):
     json.dump({"executions_compared": total, "mismatches": bad}, open(os.path.join(VERIF, "evidence", "_determinism.json"), "w"))
     sys.exit(1 if bad else 0)
 
+def fidelity(n):
+    """sim vs real: same scenarios and histories through the simulated kernel and through the real one."""
+    import subprocess
+    exe = B.build("plain")
+    if not exe:
+        print("build failed"); sys.exit(2)
+    real = os.path.join(VERIF, "build", "plain", "realninja")
+    r = subprocess.run(["/usr/bin/ninja", "-C", os.path.dirname(real), "realninja"], capture_output=True, text=True)
+    if r.returncode != 0:
+        print(r.stdout[-2000:]); sys.exit(2)
+    per = max(1, n // 8)
+    procs = [subprocess.Popen([exe, "fidelity", "--seed", "11", "--first", str(i * per), "--count", str(per), real], stdout=subprocess.PIPE, text=True) for i in range(8)]
+    tot = {"fidelity_runs": 0, "builds": 0, "commands": 0, "mismatching_runs": 0}
+    bad = []
+    for p in procs:
+        out, _ = p.communicate()
+        for ln in out.split("\n"):
+            if not ln.startswith("{"):
+                continue
+            d = json.loads(ln)
+            if "fidelity_runs" in d:
+                for k in tot: tot[k] += d[k]
+            elif d.get("mismatch"):
+                bad.append(d)
+    print("fidelity:", tot)
+    for d in bad[:10]:
+        print("  run", d["run"], d["mismatch"][:300])
+    json.dump(tot, open(os.path.join(VERIF, "evidence", "_fidelity.json"), "w"))
+    sys.exit(1 if tot["mismatching_runs"] else 0)
+
 if __name__ == "__main__":
-    if len(sys.argv) > 1 and sys.argv[1] == "determinism":
+    if len(sys.argv) > 1 and sys.argv[1] == "fidelity":
+        fidelity(int(sys.argv[2]) if len(sys.argv) > 2 else 400)
+    elif len(sys.argv) > 1 and sys.argv[1] == "determinism":
         determinism(int(sys.argv[2]) if len(sys.argv) > 2 else 300)
     else:
         print(__doc__)
